@@ -4,7 +4,8 @@
    pkg/core/object/fmt.go (+ ec.go), internal/crypto/object.go.
 
    Scenario v: path ("signed": object sealed by the client, streamed through validatingTarget;
-   "replicate": ValidateAndStoreObjectLocally; "trusted": raw object sliced and signed by the node),
+   "replicate": ValidateAndStoreObjectLocally; "trusted": raw object sliced and signed by the node;
+   "ecput" / "ecrepl": an EC part object through the same two entry points), sess (V1 session token carried),
    mut (the ONE aspect of the object that is invalid, "none" = valid object; the mapping mutation -> aspect is
    the harness's and is trusted), len (payload bytes the object really has), decl (payload length declared in
    the header), chunks (sizes of the streamed chunks), max (MaxObjectSize), fail (trusted: the fail-th
@@ -26,9 +27,14 @@ CONSTANT BugWriteErrorSwallowed
 
 \* aspects rejected when the header is processed (format validator, size limit, checksum kind)
 HeaderMuts == {"id", "idsigned", "sig", "sigkey", "attrzero", "attrdup", "attrempty", "ecattr", "nocnr", "noowner", "expired",
-               "parentid", "nochecksum", "tzchecksum", "toobig"}
+               "parentid", "nochecksum", "tzchecksum", "toobig",
+               \* object created within a V1 session: signer is not the token's key / owner is not the issuer /
+               \* token changed after signing / token issued for another key
+               "sessForeign", "sessOwner", "sessTokSig", "sessOtherTok",
+               \* EC part objects
+               "ecid", "ecpartidx", "ecruleidx", "ecnoparent", "ecparthash", "ecsigned", "ecparentsig", "ecparentid", "ecsize"}
 \* aspects that only the payload can reveal
-PayloadMuts == {"checksum", "sizeLess", "sizeMore", "streamShort", "streamLong"}
+PayloadMuts == {"checksum", "ecchecksum", "sizeLess", "sizeMore", "streamShort", "streamLong"}
 SignedMuts == {"none"} \cup HeaderMuts \cup PayloadMuts
 TrustedHeaderMuts == {"attrzero", "attrdup", "attrempty", "ecattr", "expired"}
 
@@ -41,7 +47,7 @@ CeilDiv(a, b) == (a + b - 1) \div b
 (* Part 3 first (it is what the other parts are compared with): the decision as a function. *)
 Overflows(v) == \E k \in 1..Len(v.chunks) : Sum(Prefix(v.chunks, k)) > v.decl
 \* the bytes that arrive are the object's payload (no padding, nothing missing) and hash to the header's checksum
-BytesOK(v) == v.mut # "checksum" /\ Sum(v.chunks) = v.len
+BytesOK(v) == v.mut \notin {"checksum", "ecchecksum"} /\ Sum(v.chunks) = v.len
 
 SignedAccept(v) ==
   IF v.mut \in HeaderMuts THEN "error"                    \* WriteHeader
@@ -51,7 +57,7 @@ SignedAccept(v) ==
   ELSE "ok"
 
 ReplicateAccept(v) ==
-  IF v.mut \in HeaderMuts \/ v.decl # v.len \/ v.mut = "checksum" THEN "error" ELSE "ok"
+  IF v.mut \in HeaderMuts \/ v.decl # v.len \/ v.mut \in {"checksum", "ecchecksum"} THEN "error" ELSE "ok"
 
 DataPieces(v) == IF v.len = 0 THEN 1 ELSE CeilDiv(v.len, v.max)
 TotalPieces(v) == IF DataPieces(v) > 1 THEN DataPieces(v) + 1 ELSE 1     \* + link object
@@ -61,8 +67,10 @@ MidStream(v, f) == DataPieces(v) > 1 /\ f <= DataPieces(v) - 1
 
 \* [res, stored, any]: any = TRUE when the code as found continues from a broken slicer (outcome not modelled)
 Accept(v, bug) ==
-  CASE v.path = "signed" -> [res |-> SignedAccept(v), stored |-> IF SignedAccept(v) = "ok" THEN 1 ELSE 0, any |-> FALSE]
-    [] v.path = "replicate" -> [res |-> ReplicateAccept(v), stored |-> IF ReplicateAccept(v) = "ok" THEN 1 ELSE 0, any |-> FALSE]
+  \* Accept is STATELESS on purpose: the verdict on an object must not depend on what the node validated before
+  \* (session sequences of the harness run through one service instance with a live session-token cache)
+  CASE v.path \in {"signed", "ecput"} -> [res |-> SignedAccept(v), stored |-> IF SignedAccept(v) = "ok" THEN 1 ELSE 0, any |-> FALSE]
+    [] v.path \in {"replicate", "ecrepl"} -> [res |-> ReplicateAccept(v), stored |-> IF ReplicateAccept(v) = "ok" THEN 1 ELSE 0, any |-> FALSE]
     [] v.path = "trusted" ->
          IF v.mut \in TrustedHeaderMuts THEN [res |-> "error", stored |-> 0, any |-> FALSE]
          ELSE IF v.fail = 0 \/ v.fail > TotalPieces(v) THEN [res |-> "ok", stored |-> TotalPieces(v), any |-> FALSE]
@@ -74,7 +82,7 @@ Valid(v) == v.mut = "none" /\ v.decl = v.len /\ Sum(v.chunks) = v.len
 PropObs(v, o) ==
   /\ o.res \in {"ok", "error"}                                   \* never a crash
   /\ o.stored > 0 => o.idok /\ o.sigok                           \* whatever was stored is self-consistent + authenticated
-  /\ (v.path \in {"signed", "replicate"} /\ o.stored > 0) => (v.mut = "none" /\ o.same)
+  /\ (v.path \in {"signed", "replicate", "ecput", "ecrepl"} /\ o.stored > 0) => (v.mut = "none" /\ o.same)
   /\ (v.path = "trusted" /\ o.res = "ok") => o.same             \* pieces reassemble to the stream
 
 -----------------------------------------------------------------------------
